@@ -106,9 +106,24 @@ def run(spec, tier, seed, collect=None):
     ctx = Ctx(cache, tier, seed)
     cl.log('%s: model ready (%d files changed) %.1fs' % (prop, len(emit_res['changed']), T.s()))
 
+    # the native harness (needed by the correspondence) is compiled while Lean builds
+    prebuild = None
+    if spec.get('correspond') or spec.get('search'):
+        import threading
+
+        def _pre():
+            try:
+                co.build_native(cache, variant='O1')
+            except Exception:  # noqa: BLE001  (reported when the correspondence asks for it again)
+                pass
+        prebuild = threading.Thread(target=_pre, daemon=True)
+        prebuild.start()
+
     # 2. prove
     targets = spec['lean_targets']
     ok, out = cl.lake_build(targets)
+    if prebuild is not None:
+        prebuild.join()
     failed = cl.failed_theorems(out) if not ok else []
     axioms, counts, samples = cl.audit_info(out, prop)
     prop_file = os.path.join(LEAN, 'PhQVerif', 'Props', prop + '.lean')
